@@ -1,6 +1,6 @@
 (* Facts tying the byte-level model (Mgr.v) to the header-level development. *)
 From Coq Require Import List NArith Arith Bool Lia.
-Require Import Slots Mgr.
+Require Import Slots MRecon Mgr.
 Import ListNotations.
 
 (* the guards as committed in fs.rs (d + 3 <= N, d + 2 == N) are the ones of the header-level proofs (d <= N - 3, d = N - 2)
@@ -114,4 +114,80 @@ Proof.
   destruct (prog_word m b KIND_OFFSET KIND_PARITY d3) as [d4 [[]|e|]]; try discriminate.
   destruct (set_layout m b (max_l (m_size m) sz) sz d4) as [d5 [[]|e|]]; try discriminate.
   intros H. inversion H. split; reflexivity.
+Qed.
+
+(* ---- C08: where the flash-backed storages may program ---- *)
+Definition newest_prog_in (d d' : dev) (lo hi : N) : Prop :=
+  dlog d' = dlog d \/ exists a len v z, dlog d' = FProg a len v z :: dlog d /\ lo <= a /\ a + len <= hi.
+
+Lemma d_prog_log d a len v : 
+  dlog (fst (d_prog d a len v)) = dlog d \/ exists z, dlog (fst (d_prog d a len v)) = FProg a len v z :: dlog d.
+Proof.
+  unfold d_prog. destruct (dtotal d <? a + len); [left; reflexivity|].
+  unfold tick. destruct (match dfail d with Some k => k =? dops d | None => false end); [left; reflexivity|].
+  right. eexists. reflexivity.
+Qed.
+
+(* parity blocks and matrix rows: write_raw's bound keeps every program inside [slot + 0x400, slot end), whatever
+   index, block size, capacity or offset the caller passes *)
+Theorem parity_puts_confined m fw par bsz maxl moff s k b :
+  HEADER_SIZE <= m_size m ->
+  newest_prog_in (f_dev s) (f_dev (fst (m_pput (flash_sto m fw par bsz maxl moff) s k b))) (base m par + HEADER_SIZE) (base m par + m_size m) /\
+  newest_prog_in (f_dev s) (f_dev (fst (m_mput (flash_sto m fw par bsz maxl moff) s k b))) (base m par + HEADER_SIZE) (base m par + m_size m).
+Proof.
+  intros HS. cbn [flash_sto m_pput m_mput]. split.
+  - destruct (Nat.ltb k maxl); cbn [negb]; [|left; reflexivity].
+    destruct (N.ltb_spec (m_size m - HEADER_SIZE) (N.of_nat k * bsz + bsz)); [left; reflexivity|].
+    destruct (d_prog (f_dev s) (base m par + HEADER_SIZE + N.of_nat k * bsz) bsz b) as [d1 r] eqn:E. cbn [fst f_dev].
+    pose proof (d_prog_log (f_dev s) (base m par + HEADER_SIZE + N.of_nat k * bsz) bsz b) as L. rewrite E in L. cbn [fst] in L.
+    destruct L as [L|(z & L)]; [left; exact L|]. right. do 4 eexists. split; [exact L|]. lia.
+  - destruct (Nat.ltb k maxl); cbn [negb]; [|left; reflexivity]. cbv zeta.
+    destruct (N.ltb_spec (m_size m - HEADER_SIZE) (moff + mro (N.of_nat k) + rowlen (N.of_nat k))); [left; reflexivity|].
+    match goal with |- context [d_prog ?dd ?aa ?ll ?vv] => destruct (d_prog dd aa ll vv) as [d1 r] eqn:E; pose proof (d_prog_log dd aa ll vv) as L end.
+    rewrite E in L. cbn [fst f_dev] in *. destruct L as [L|(z & L)]; [left; exact L|]. right. do 4 eexists. split; [exact L|]. lia.
+Qed.
+
+Lemma d_prog_log2 d a len v :
+  (snd (d_prog d a len v) = true -> exists z, dlog (fst (d_prog d a len v)) = FProg a len v z :: dlog d) /\
+  (snd (d_prog d a len v) = false -> dlog (fst (d_prog d a len v)) = dlog d).
+Proof.
+  unfold d_prog. destruct (dtotal d <? a + len); [split; [discriminate| reflexivity]|].
+  unfold tick. destruct (match dfail d with Some k => k =? dops d | None => false end); [split; [discriminate| reflexivity]|].
+  split; [intros _; eexists; reflexivity| discriminate].
+Qed.
+
+(* data blocks: with the geometry accepted by start_update (n * size <= slot - 0x4400, n <= 16384) and an index below n,
+   the block lands in [slot + 0x4400, slot end) and its marker is one byte of the status table [slot + 0x400, slot + 0x4400) *)
+Theorem data_put_confined m fw par bsz maxl moff s i b nseg :
+  nseg <= MAX_SEGMENTS -> nseg * bsz <= m_size m - DATA_REGION_OFFSET -> DATA_REGION_OFFSET <= m_size m -> N.of_nat i < nseg ->
+  let d := f_dev s in let d' := f_dev (fst (m_dput (flash_sto m fw par bsz maxl moff) s i b)) in
+  dlog d' = dlog d \/
+  (exists a v z, dlog d' = FProg a bsz v z :: dlog d /\ base m fw + DATA_REGION_OFFSET <= a /\ a + bsz <= base m fw + m_size m) \/
+  (exists a v z z', dlog d' = FProg (base m fw + WRITTEN_OFFSET + N.of_nat i) 1 DATA_WRITTEN z' :: FProg a bsz v z :: dlog d /\
+                    base m fw + DATA_REGION_OFFSET <= a /\ a + bsz <= base m fw + m_size m /\
+                    base m fw + WRITTEN_OFFSET + N.of_nat i + 1 <= base m fw + DATA_REGION_OFFSET).
+Proof.
+  intros Hn Hfit Hsz Hi. cbv zeta. cbn [flash_sto m_dput].
+  destruct (MAX_SEGMENTS <? N.of_nat i); [left; reflexivity|].
+  assert (RL : forall ss, dlog (f_dev (fst (seg_size m fw true ss))) = dlog (f_dev ss)).
+  { intros ss. unfold seg_size. destruct (f_cache ss); [reflexivity|].
+    pose proof (d_read_log (f_dev ss) (base m fw + SEGMENT_SIZE_OFFSET) 4) as H.
+    destruct (d_read (f_dev ss) (base m fw + SEGMENT_SIZE_OFFSET) 4) as [d1 [v|]]; cbn [fst f_dev] in *; apply H. }
+  specialize (RL s). destruct (seg_size m fw true s) as [s1 [z|]]; cbn [fst] in RL; [|left; cbn [fst]; exact RL].
+  destruct (z =? 0); [left; cbn [fst fe f_dev set_err dlog]; exact RL|].
+  destruct (N.eqb_spec z bsz) as [->|]; cbn [negb]; [|left; cbn [fst fe f_dev set_err dlog]; exact RL].
+  destruct (m_size m <? DATA_REGION_OFFSET + N.of_nat i * bsz); [left; cbn [fst fe f_dev set_err dlog]; exact RL|].
+  set (A := base m fw + (DATA_REGION_OFFSET + N.of_nat i * bsz)).
+  assert (HA : base m fw + DATA_REGION_OFFSET <= A /\ A + bsz <= base m fw + m_size m) by (subst A; nia).
+  destruct (d_prog_log2 (f_dev s1) A bsz b) as [T1 F1].
+  destruct (d_prog (f_dev s1) A bsz b) as [d2 [|]]; cbn [fst snd] in T1, F1.
+  2:{ cbn [fst f_dev]. left. rewrite (F1 eq_refl). exact RL. }
+  destruct (T1 eq_refl) as (zz & D1). rewrite RL in D1. clear T1 F1.
+  destruct (m_size m <? WRITTEN_OFFSET + N.of_nat i).
+  { cbn [fst f_dev set_err dlog]. right; left. exists A, b, zz. split; [exact D1| exact HA]. }
+  destruct (d_prog_log2 d2 (base m fw + WRITTEN_OFFSET + N.of_nat i) 1 DATA_WRITTEN) as [T2 F2].
+  destruct (d_prog d2 (base m fw + WRITTEN_OFFSET + N.of_nat i) 1 DATA_WRITTEN) as [d3 [|]]; cbn [fst snd f_dev] in *.
+  - destruct (T2 eq_refl) as (z' & D2). right; right. exists A, b, zz, z'. rewrite D2, D1. split; [reflexivity|].
+    split; [apply HA|]. split; [apply HA|]. unfold WRITTEN_OFFSET, DATA_REGION_OFFSET, MAX_SEGMENTS in *. lia.
+  - right; left. exists A, b, zz. rewrite (F2 eq_refl). split; [exact D1| exact HA].
 Qed.
